@@ -190,11 +190,15 @@ class Grid(DiscreteSpace[T], Generic[T], HasPropertyLayers):
         self.__dict__ = state
         self._connect_cells()  # using super fails for this for some reason, so we repeat ourselves
 
-        self.cell_klass = type(
-            self._cells[(0, 0)]
-        )  # the __reduce__ function handles this for us nicely
+        # unpickle_gridcell gives every cell a class of its own. All cells of a grid have
+        # to share one class, which carries the descriptors for this grid's own layers
+        self.cell_klass = type(next(iter(self._cells.values())))
+        copyreg.pickle(self.cell_klass, pickle_gridcell)
+        for cell in self._cells.values():
+            cell.__class__ = self.cell_klass
         for layer in self._mesa_property_layers.values():
             setattr(self.cell_klass, layer.name, PropertyDescriptor(layer))
+            self.cell_klass._mesa_properties.add(layer.name)
 
 
 class OrthogonalMooreGrid(Grid[T]):
